@@ -54,6 +54,8 @@ def _branch_hit(ctx, fn, env, var_tests):
 
 
 def check(ctx, rep):
+    from . import c07, _share
+    _share.share(ctx, rep, c07, ('literal.',), 'a number literal re-enters with the type its digit count and sigil select')
     tkm = ctx.mod(TK)
     kw_node = tkm.assigns.get('KEYWORDS')
     if not isinstance(kw_node, ast.Dict):
